@@ -5,6 +5,7 @@
    satisfy the obligations by computation, so the generic statements hold of every section. *)
 From Coq Require Import String List ZArith Bool.
 From V Require Import Model.C15_Config Model.C15_Valid Model.C15_Manager Gen.ConfigSchemas Proofs.C15_Config Proofs.C15_Tables Proofs.C15_Manager.
+From V Require Import Model.C15_Check Proofs.C15_Monitor.
 Import ListNotations.
 Open Scope string_scope.
 
@@ -273,3 +274,110 @@ Example manager_rejects_witness :
   /\ mgr_load (map comp_of (tl ex_regs)) (mkMgr [[]] None) (Some ex_file) = None
   /\ mgr_load (map comp_of ex_regs) ex_m0 None = None.
 Proof. vm_compute. repeat split; reflexivity. Qed.
+
+(* ---------------- the per-section run-time monitors of Model/C15_Check.v (check_case) and the theorems above ---------------- *)
+(* check_case evaluates, on what the harness recorded of the IMPLEMENTATION: code 1 (the model's output is the observed one,
+   after canonicalisation) and the property on the observation itself: 10 accepted but Validate() fails, 11 save/load/save
+   differs, 12 a secret in the displayable form, 13 a setting of a well-formed document is not in the loaded configuration,
+   14 Default() refused or invalid. Completeness: a case annotated with the model's own outputs raises no code, for every
+   section, mode, document, environment, oracle answers - so an implementation that agrees with the model on an input
+   satisfies every monitored clause on it, and no monitor can alarm on behaviour the model allows. Soundness: a case on which
+   a code is absent satisfies the Prop-level clause the code stands for. Transfer: a case without code 1 is one where what
+   was observed is what the model computes, of which the theorems above hold.
+   Definitions (model_obs, default_guard, has_code, settings_kept, same_val, reachable): Proofs/C15_Monitor.v. *)
+
+(* ApplyEnvVars (apply_env: the saved form of the current configuration overridden by the environment, applied to the
+   CURRENT values) on a loaded configuration: the result validates and is reproduced exactly by save + load. (The round-trip
+   theorems above start from the defaults; this is what monitor 11 needs in the env mode.) *)
+Theorem env_save_load S V orc j c0 env c :
+  schema_coherentb S = true -> load S V orc j = Some c0 -> apply_env S V orc c0 env = Some c ->
+  V orc (cget S c) = true /\ load S V orc (save S c) = Some c.
+Proof. exact (env_save_load_l S V orc j c0 env c). Qed.
+Print Assumptions env_save_load.
+
+(* completeness, generic: every coherent table whose default configuration validates and survives save + load, every
+   validator, mode, document (the oracle answers are part of it), every list dn of directly read members *)
+Theorem model_passes_monitor S V m j dn :
+  schema_coherentb S = true -> V (oracle_of j) (cget S (defaults S)) = true -> default_roundtrip S V (oracle_of j) ->
+  default_guard m j ->
+  model_eqb S V m j (model_obs S V m j dn) = true /\ spec_fails S m j (model_obs S V m j dn) = [].
+Proof. exact (model_passes_monitor_l S V m j dn). Qed.
+Print Assumptions model_passes_monitor.
+
+(* completeness on the 14 generated sections: no code at all, code 1 included. default_guard: a Default() case does not
+   carry the mark "=notobject" (the harness writes it for raw byte strings only, which are LoadJSON cases) *)
+Theorem sections_model_passes_monitor id S m j dn : In S all_schemas -> default_guard m j ->
+  check_case (id, (sname S, m, j, model_obs S (validator_of (sname S)) m j dn)) = [].
+Proof. exact (sections_model_passes_monitor_l id S m j dn). Qed.
+Print Assumptions sections_model_passes_monitor.
+
+(* soundness of the monitors 10-14 on an accepted observation: the accepted configuration validates; saving, loading and
+   saving again gives the same; no secret was found in the displayable form; every setting of a well-formed document is
+   the observed value of its member (null and [] being the same list) *)
+Theorem sections_monitor_sound id sn S m j saved direct valid rt leak :
+  find_schema sn all_schemas = Some S ->
+  let r := check_case (id, (sn, m, j, ObsOk saved direct valid rt leak)) in
+  (~ has_code 10 r -> ~ has_code 14 r -> valid = true) /\
+  (~ has_code 11 r -> rt = true) /\
+  (~ has_code 12 r -> leak = false) /\
+  (~ has_code 13 r -> m = MLoad -> wf_doc S j = true -> settings_kept S j saved direct).
+Proof. exact (sections_monitor_sound_l id sn S m j saved direct valid rt leak). Qed.
+Print Assumptions sections_monitor_sound.
+
+(* a refused Default() always raises code 14 *)
+Theorem sections_monitor_sound_default id sn S j :
+  find_schema sn all_schemas = Some S -> has_code 14 (check_case (id, (sn, MDefault, j, ObsErr))).
+Proof. exact (sections_monitor_sound_default_l id sn S j). Qed.
+Print Assumptions sections_monitor_sound_default.
+
+(* transfer: without code 1, a refusal is a refusal of the model, and an accepted observation is that of a configuration c
+   the model accepts: c validates, survives save + load, displays no secret, saves member by member what was observed
+   (for Default() the hidden members - generated identities - are not compared), holds the directly read members, and,
+   for LoadJSON of a well-formed document, every setting of the document *)
+Theorem sections_agreement_transfers id sn S m j o :
+  find_schema sn all_schemas = Some S -> ~ has_code 1 (check_case (id, (sn, m, j, o))) ->
+  match o with
+  | ObsErr => model_run S (validator_of sn) m j = None
+  | ObsOk saved direct _ _ _ =>
+      exists c, model_run S (validator_of sn) m j = Some c
+        /\ validator_of sn (oracle_of j) (cget S c) = true
+        /\ load S (validator_of sn) (oracle_of j) (save S c) = Some c
+        /\ leak_b S c = false
+        /\ (forall f, In f (sfields S) -> (m = MDefault -> fhidden f = false) ->
+              same_val (fkind f) (jval (fname f) (save S c)) (jval (fname f) saved))
+        /\ (m <> MDefault -> forall n v, In (n, v) direct -> v = cget S c n)
+        /\ (m = MLoad -> wf_doc S j = true -> forall f, In f (sfields S) -> is_setting f j = true ->
+              cget S c (fname f) = canon_in (jval (fname f) j))
+  end.
+Proof. exact (sections_agreement_transfers_l id sn S m j o). Qed.
+Print Assumptions sections_agreement_transfers.
+
+(* the hypotheses are inhabited on the three modes; the guard is needed (the model refuses a Default() case that carries the
+   mark, and code 14 fires on the model's own answer); the monitors reject wrong observations: the S15 shape (namespace of
+   the document not loaded: codes 1 and 13 tag 1), an invalid accepted configuration (10), a differing reload (11), a
+   displayed secret (12) *)
+Definition ex_raft_doc : json := [("datastore_namespace", VS "/x"); ("commit_retries", VZ 1)].
+Definition ex_raft_wrong (o : obs) : obs :=
+  match o with
+  | ObsOk saved _ v r l =>
+      ObsOk (filter (fun e => negb (String.eqb (fst e) "datastore_namespace")) saved) [("datastore_namespace", VS "/r")] v r l
+  | ObsErr => ObsErr end.
+Definition ex_flags (o : obs) (v r l : bool) : obs := match o with ObsOk s d _ _ _ => ObsOk s d v r l | ObsErr => ObsErr end.
+Example sections_monitor_example :
+  let o := model_obs schema_raft (validator_of "raft") MLoad ex_raft_doc ["datastore_namespace"] in
+  In schema_raft all_schemas /\ sname schema_raft = "raft" /\ default_guard MLoad ex_raft_doc /\ wf_doc schema_raft ex_raft_doc = true /\
+  (exists saved, o = ObsOk saved [("datastore_namespace", VS "/x")] true true false /\ jval "datastore_namespace" saved = VS "/x") /\
+  check_case (0%N, ("raft", MLoad, ex_raft_doc, ex_raft_wrong o)) = [(0, 1, 0); (0, 13, 1)]%N /\
+  check_case (0%N, ("raft", MLoad, ex_raft_doc, ex_flags o false false true)) = [(0, 10, 0); (0, 11, 0); (0, 12, 0)]%N /\
+  (* ApplyEnvVars and Default() *)
+  model_obs schema_stateless (validator_of "stateless") (MEnv [("concurrent_pins", VZ 7)]) [("max_pin_queue_size", VZ 5)] []
+    = ObsOk [("max_pin_queue_size", VZ 5); ("concurrent_pins", VZ 7)] [] true true false /\
+  model_obs schema_stateless (validator_of "stateless") MDefault [] [] = ObsOk [("concurrent_pins", VZ 10)] [] true true false /\
+  default_guard MDefault [] /\
+  check_case (0%N, ("stateless", MDefault, [], ex_flags (model_obs schema_stateless (validator_of "stateless") MDefault [] []) false true false))
+    = [(0, 14, 0)]%N /\
+  (* the guard: *)
+  check_case (0%N, ("stateless", MDefault, [("=notobject", VWrong)],
+                    model_obs schema_stateless (validator_of "stateless") MDefault [("=notobject", VWrong)] [])) = [(0, 14, 0)]%N.
+Proof. cbv zeta. split; [vm_compute; tauto|]. split; [reflexivity|]. split; [exact I|]. split; [vm_compute; reflexivity|].
+  split; [eexists; split; vm_compute; reflexivity|]. repeat split; vm_compute; reflexivity. Qed.
